@@ -12,7 +12,8 @@ RULE = ("(a) enumerated: parent Signal width w in 1..W (W=6 quick, 8 thorough), 
         "slice(start,stop,step) with start,stop in [-2W,2W] or None and step in {None,+-1..+-W}; (b) Hypothesis: the same "
         "index space applied to generated parent expressions of depth <=3 over signals, slices, concats, port references and "
         "bundle references. Each index is built, its width queried, and the expression connected to an external-module port, "
-        "elaborated and exported; the exported bits are compared with Python list indexing. Non-trivial = anything but a plain "
+        "elaborated and exported; the exported bits are compared with Python list indexing; selections of >= 2 bits are also wired "
+        "element-wise to an instance array (1-bit and 2-bit elements), whose elements must receive the selected bits in order. Non-trivial = anything but a plain "
         "in-range non-negative unit-step slice of a Signal; distinct by (parent, index) text.")
 ASSUME = ["Python list indexing is the oracle", "acceptance is required only for in-range int indices and non-empty unit-step "
           "ranges with explicit bounds in [-w,w]; strided or out-of-range-bound slices may be rejected, but if accepted must "
@@ -158,6 +159,27 @@ def export_bits(widths, expr, port_width):
     raise RuntimeError("dut not exported")
 
 
+def export_bits_array(widths, expr, elem_width, n):
+    """Connect expr (n * elem_width bits) to an array of n elements with a port of elem_width: element k must receive bits
+    [k*elem_width, (k+1)*elem_width) of the selection. -> bits LSB first, elements in order"""
+    h = H()["h"]
+    c = Ctx(widths)
+    X = h.ExternalModule(name="E%d" % elem_width, port_list=[h.Input(name="a", width=elem_width)], domain="verif")
+    conn = c.build(expr)
+    c.m.add(n * X()(a=conn), name="dut")
+    pkg = h.to_proto(c.m)
+    mod = pkg.modules[-1]
+    sigw = {s.name: s.width for s in mod.signals}
+    byname = {inst.name: inst for inst in mod.instances}
+    out = []
+    for k in range(n):
+        inst = byname.get("dut_%d" % k)
+        if inst is None:
+            raise RuntimeError("array element dut_%d not exported (have %s)" % (k, sorted(byname)))
+        out += list(reversed(pkgread.expand_target(inst.connections[0].target, sigw)))
+    return out
+
+
 def check_case(case):
     """case = {"widths": {sig: w}, "parent": Expr, "index": int | [a,b,c]} -> [(sig, detail)], info"""
     widths, parent, idx = case["widths"], case["parent"], case["index"]
@@ -215,6 +237,20 @@ def check_case(case):
             out.append(("accepted_invalid:%s" % kind, "%s was exported (as %s) though Python selects nothing / raises IndexError" % (label, got)))
         elif got != expected:
             out.append(("wrong_bits:%s:%s" % (kind, parent[0]), "%s exported bits %s, Python selects %s" % (label, got, expected)))
+        elif pw == len(expected) and pw >= 2:
+            # the same selection handed out element-wise by an instance array: resolution down to signal-level bits must
+            # still give element k the k-th group of selected bits
+            for ew in ([1, 2] if pw % 2 == 0 and pw > 2 else [1]):
+                try:
+                    gota = export_bits_array(widths, expr, ew, pw // ew)
+                except pkgread.PkgError as e:
+                    out.append(("bit_outside_signal:array:%s" % kind, "%s wired to an array of %d exported a bit outside its signal: %s" % (label, pw // ew, e)))
+                    continue
+                except Exception:
+                    continue  # acceptance by arrays is not part of this property
+                if gota != expected:
+                    out.append(("wrong_bits_via_array:%s:%s" % (kind, parent[0]), "%s wired to an array of %d x %d-bit elements gives them bits %s, Python selects %s" % (
+                        label, pw // ew, ew, gota, expected)))
     if kind in ("int_ok", "must_accept") and not accepted:
         out.append(("rejected_valid:%s:%s" % (kind, parent[0] if refp else "plain"),
                     "%s is in range (unit step) but was rejected (%s)" % (label, rejected_at)))
